@@ -2,7 +2,16 @@
 (buidl/hd.py, buidl/blinding.py).  Symbolic contracts run in the discrete-log theory (nl_uf=True):
 secrets are scalars mod N, public keys are pt(a), HMAC-SHA512 / HASH160 are uninterpreted functions."""
 from .common import *  # noqa
+from .common import contract as _contract
 from .ecc import point, N
+
+
+def contract(name, **kw):
+    """deductive jobs of this file run next to a dozen CPU-bound bounded jobs: a generous per-query limit keeps a starved
+    solver call from being reported as `undecided` (proved obligations cost the same)"""
+    kw.setdefault("timeout_ms", 40000)
+    return _contract(name, **kw)
+
 
 SECRET = ("int", 1, N - 1)
 CC = "bytes:32"
@@ -150,7 +159,7 @@ contract("verif.harness.hd.priv_child2", props=("C08",), nl_uf=True,
                   "result[3] == %s[3]" % _TWO, "result[4] == j",
                   "result[3] == spec.hd.fingerprint_priv(spec.hd.ckd_priv((k, c), i)[0])",
                   "spec.curve.same(result[5], spec.curve.mul_G(%s[0]))" % _TWO],
-         gen=_with_index(names=("i", "j")), tiers=("thorough",))
+         gen=_with_index(names=("i", "j")))
 
 _TWOP = "spec.hd.derive_pub((K, c), [i, j], depth, fp, num)"
 contract("verif.harness.hd.pub_child2", props=("C08",), nl_uf=True,
@@ -158,13 +167,13 @@ contract("verif.harness.hd.pub_child2", props=("C08",), nl_uf=True,
          requires=[_TWOP + " is not None"],
          ensures=["returns()", "spec.curve.same(result[0], %s[0])" % _TWOP, "result[1] == %s[1]" % _TWOP, "result[2] == depth + 2",
                   "result[3] == %s[3]" % _TWOP, "result[4] == j"],
-         gen=_pubnode(_with_index(names=("i", "j"), lo=0, hi=H - 1)), tiers=("thorough",))
+         gen=_pubnode(_with_index(names=("i", "j"), lo=0, hi=H - 1)))
 
 contract("verif.harness.hd.consistency2", props=("C08",), nl_uf=True,
          params=dict(_PRIV_PARAMS, depth=("int", 0, 254), i=("int", 0, H - 1), j=("int", 0, H - 1)),
          requires=[_TWO + " is not None"],
          ensures=["returns()"] + _SAME10,
-         gen=_with_index(names=("i", "j"), lo=0, hi=H - 1), tiers=("thorough",))
+         gen=_with_index(names=("i", "j"), lo=0, hi=H - 1))
 
 # ---------------------------------------------------------------------------- fingerprints
 contract("verif.harness.hd.fingerprint_pub", props=("C08",), nl_uf=True, params={"K": point},
@@ -317,18 +326,48 @@ _ENS_PRIV_PARSE = (["implies(returns(), spec.hd.xkey_reject_reason%s is None)" %
                   "implies(returns(), result[6] == spec.hd.version_info(version)[2])",
                   "implies(returns(), result[7] == spec.hd.version_pub('x' if result[6] == 'mainnet' else 't'))"])
 # quick tier: one version of each family and kind; thorough tier: every version of the table
-_parse_contract("verif.harness.hd.priv_parse_parts", [_PRV_VERS[0], _PRV_VERS[7], _PUB_VERS[0], _UNKNOWN_VERS[1]], _ENS_PRIV_PARSE, True, timeout_ms=60000)
+_parse_contract("verif.harness.hd.priv_parse_parts", [_PRV_VERS[0], _PRV_VERS[7], _PUB_VERS[0], _UNKNOWN_VERS[1]], _ENS_PRIV_PARSE, True, timeout_ms=5000)
 _parse_contract("verif.harness.hd.priv_parse_parts#all_versions", _PRV_VERS + _PUB_VERS + _UNKNOWN_VERS, _ENS_PRIV_PARSE, True,
                 tiers=("thorough",), max_paths=20000)
 
-_ENS_PUB_PARSE = (["implies(returns(), spec.hd.xkey_reject_reason%s is None)" % _RAW,
+_RAWP = "(version + meta + spec.hd.serP(K))"
+_ENS_PUB_POINT = ["implies(returns(), spec.hd.xkey_reject_reason%s is None)" % _RAWP,
+                  "implies(spec.hd.xkey_reject_reason%s is None and spec.hd.version_info(version)[1] == 'pub', returns())" % _RAWP,
+                  "implies(returns(), spec.hd.version_info(version)[1] == 'pub')",
+                  "implies(returns(), result[0] == version and result[1] == meta[0] and result[2] == meta[1:5] and "
+                  "result[3] == int.from_bytes(meta[5:9], 'big') and result[4] == meta[9:41])",
+                  "implies(returns(), spec.curve.same(result[5], K))",
+                  "implies(returns(), result[6] == spec.hd.version_info(version)[2])"]
+
+
+def _gen_pub_point(rng, tier):
+    for d in _gen_raw_parse(False)(rng, tier):
+        r = d["raw"]
+        yield {"version": r[:4], "meta": r[4:45], "K": {"__point__": rng.choice(KS + [rng.randrange(1, N)])}}
+
+
+def _pub_point_contract(name, versions, **kw):
+    contract(name, props=("C08",), nl_uf=True, params={"version": ("choice", versions), "meta": "bytes:41", "K": point},
+             ensures=_ENS_PUB_POINT, gen=_gen_pub_point, **kw)
+
+
+# public keys: ANY 41 metadata bytes in front of the SEC form of ANY curve point.  Key data that is not the encoding of a point
+# (prefix, x >= p, x off the curve) is S256Point.parse_sec's contract (C03); here it is exercised by the bounded contract below.
+_pub_point_contract("verif.harness.hd.pub_parse_point", [_PUB_VERS[0], _PUB_VERS[9], _PRV_VERS[0], _UNKNOWN_VERS[1]])
+_pub_point_contract("verif.harness.hd.pub_parse_point#all_versions", _PUB_VERS + _PRV_VERS + _UNKNOWN_VERS, tiers=("thorough",), max_paths=20000)
+
+BOUNDED_ONLY = []
+_ENS_PUB_PARSE = ["implies(returns(), spec.hd.xkey_reject_reason%s is None)" % _RAW,
                   "implies(spec.hd.xkey_reject_reason%s is None and spec.hd.version_info(version)[1] == 'pub', returns())" % _RAW,
-                  "implies(returns(), spec.hd.version_info(version)[1] == 'pub')"] + _PARSE_FIELDS +
+                  "implies(returns(), spec.hd.version_info(version)[1] == 'pub')"] + _PARSE_FIELDS + \
                  ["implies(returns(), spec.hd.serP(result[5]) == rest[41:74])",
-                  "implies(returns(), result[6] == spec.hd.version_info(version)[2])"])
-_parse_contract("verif.harness.hd.pub_parse_parts", [_PUB_VERS[0], _PUB_VERS[9], _PRV_VERS[0], _UNKNOWN_VERS[1]], _ENS_PUB_PARSE, False, timeout_ms=60000)
-_parse_contract("verif.harness.hd.pub_parse_parts#all_versions", _PUB_VERS + _PRV_VERS + _UNKNOWN_VERS, _ENS_PUB_PARSE, False,
-                tiers=("thorough",), max_paths=20000)
+                  "implies(returns(), result[6] == spec.hd.version_info(version)[2])"]
+# arbitrary 74 bytes behind a public version: run concretely only.  Symbolically the square-root existence predicate of the curve
+# theory is uninterpreted, so the solver invents x-coordinates (e.g. x = 0) whose x^3+7 "is" a square: the models do not replay.
+BOUNDED_ONLY.append("verif.harness.hd.pub_parse_parts")
+contract("verif.harness.hd.pub_parse_parts", props=("C08",), params={"version": "bytes:4", "rest": "bytes:74"},
+         ensures=_ENS_PUB_PARSE, gen=_gen_parts(False),
+         note="bounded only: arbitrary key bytes need the quadratic-residue predicate, uninterpreted in the curve theory")
 
 # every version outside the SLIP-132 table is refused by both parsers
 contract("verif.harness.hd.priv_parse_parts#unknown_version", props=("C08",), nl_uf=True,
